@@ -206,8 +206,7 @@ def spec_lines(ctor, events):
 def classify(ctor, events, got, want):
     """Signature of the first differing verdict."""
     s, e, absolute = expected_interval(ctor)
-    k = next(i for i in range(min(len(got), len(want))) if got[i] != want[i]) if got != want and \
-        any(a != b for a, b in zip(got, want)) else min(len(got), len(want))
+    k = next((i for i, (x, y) in enumerate(zip(got, want)) if x != y), min(len(got), len(want)))
     ev = events[k] if k < len(events) else '?'
     timed = p1_of(ev) is not None if ev not in ('R', '?') else False
     seg_start = max([i for i in range(k) if events[i] == 'R'] + [-1]) + 1
